@@ -205,6 +205,10 @@ def run_shard(ctx):
         if ci % 60 == 0:
             ctx.sample({"cls": name, "seedstr": f"C11/{ctx.seed}/{name}/0", "hostile": "decimals/ints/datetimes/strings as described in rule"})
     online.flush(ctx)
+    if ctx.tier == "thorough" and ctx.shard == 0:
+        # second, independent workload: the repository's own 3592 tests, each an execution the monitor watches
+        from vf.core import suite_under_monitors
+        suite_under_monitors.run(ctx, "suite", ('to_etree/',))
 
 
 def replay(ctx, case):
